@@ -228,6 +228,16 @@ XSHAPES = [
     'INSERT INTO tgt SELECT t."a" AS x FROM src t JOIN "other" o ON t.k = o.k',
     "INSERT OVERWRITE TABLE tgt SELECT a, b FROM src",
     "INSERT INTO tgt SELECT a, b FROM src;\nINSERT INTO tgt2 SELECT \"a\" AS c FROM tgt",
+    # (round 11) the dialect-sensitive token sits INSIDE brackets - derived table, nested brackets, IN / scalar sub-query,
+    # CTE body: anything a layer keeps per bracketed piece of text rather than per statement
+    'INSERT INTO tgt SELECT s.c FROM (SELECT "x" AS c FROM t) s',
+    'INSERT INTO tgt SELECT s.c, s.d FROM ((SELECT "x" AS c, y AS d FROM t)) s',
+    "INSERT INTO tgt SELECT s.c FROM (SELECT `x` AS c FROM t) s",
+    "INSERT INTO tgt SELECT s.c FROM (SELECT [x] AS c FROM t) s",
+    'INSERT INTO tgt SELECT a FROM src WHERE a IN (SELECT "k" FROM other)',
+    'INSERT INTO tgt SELECT (SELECT max("v") FROM other) AS m, b FROM src',
+    'INSERT INTO tgt WITH q AS (SELECT "x" AS c FROM t) SELECT c FROM q',
+    'INSERT INTO tgt SELECT s.c FROM (SELECT "x" AS c FROM t) s JOIN (SELECT "y" AS d FROM u) r ON s.c = r.d',
 ]
 
 
@@ -527,7 +537,7 @@ def search(pool, tier: str, seed: int, deadline: float, agg: Agg) -> None:
     tp = tpcds_inputs()
     if tier == "quick":  # a third of the (heavy) TPC-DS queries per seed
         tp = [x for i, x in enumerate(tp) if (i + seed) % 3 == 0]
-    inputs = corpus_inputs() + tp + generated_inputs(seed, {"quick": 270, "thorough": 3000}[tier]) + xdialect_inputs(seed, {"quick": 60, "thorough": 600}[tier]) \
+    inputs = corpus_inputs() + tp + generated_inputs(seed, {"quick": 270, "thorough": 3000}[tier]) + xdialect_inputs(seed, {"quick": 90, "thorough": 800}[tier]) \
         + project_inputs(seed, {"quick": 12, "thorough": 120}[tier])
     seen = set()
     uniq = []
